@@ -222,10 +222,10 @@ def run(ctx):
     for tf, droutes, kind, gen, npr in configs(ctx.quick):
         if tf not in ('3m', '5m', '15m') or (ctx.quick and droutes):
             continue
-        P = all_programs(emb[1], emb[2], tf, kind, 3)
-        for k, (minutes, wname) in enumerate(words(gen)):
-            if ctx.quick and k % 4:
-                continue
+        P = all_programs(emb[1], emb[2], tf, kind, 3, ctx.quick)
+        if ctx.quick:       # quick tier: the first two letters / block patterns of the configuration's alphabet
+            gen = (gen[0], gen[1][:2], gen[2]) if gen[0] == 'minutes' else (gen[0], gen[1], gen[2][:2], gen[3])
+        for minutes, wname in words(gen):
             for pname, spec in P:
                 for rem in (1, T[tf] - 1):
                     jobs.append((minutes, wname, tf, droutes, kind, pname, spec, emb, rem))
